@@ -39,6 +39,8 @@ package volume
 //@ ensures[C02] len(result) == max(0, len(highs) - (0))
 //@ ensures[C03] consumed(highs) == len(highs) && consumed(lows) == len(lows) && consumed(closings) == len(closings) && closed(result)
 //@ ensures[C04] forall kk :: 0 <= kk && kk < len(result) ==> hor(result, kk) <= max(hor(highs, kk + (0)), max(hor(lows, kk + (0)), hor(closings, kk + (0))))
+//@ ensures[C01] "formula" forall k :: 0 <= k && k < len(result) ==> result[k] == ((closings[k] - lows[k]) - (highs[k] - closings[k])) / (highs[k] - lows[k])
+//@ ensures[C15] "range" forall k :: 0 <= k && k < len(result) && lows[k] <= closings[k] && closings[k] <= highs[k] && lows[k] < highs[k] ==> 0 - 1 <= result[k] && result[k] <= 1
 
 //@ func Mfv.Compute
 //@ requires consumed(highs) == 0 && consumed(lows) == 0 && consumed(closings) == 0 && consumed(volumes) == 0 && len(highs) == len(lows) && len(highs) == len(closings) && len(highs) == len(volumes)
